@@ -49,8 +49,91 @@ def gen() -> None:
         raise px.Unsupported(f"per-boundary regexes found: {sorted(templates)}")
     states = [n.targets[0].id for n in px.find_class(mp, "State").body
               if isinstance(n, ast.Assign) and isinstance(n.targets[0], ast.Name)]
+    # ---- T2: the arithmetic of the incremental search and of the hold-back, translated from the source
+    ne = px.find_method(cls, "next_event")
+    pdm = px.find_method(cls, "_parse_data")
+    spos_assigns = [n for n in ast.walk(ne) if isinstance(n, ast.Assign) and ast.unparse(n.targets[0]) == "self._search_position"
+                    and not (isinstance(n.value, ast.Constant) and n.value.value == 0)]
+    if len(spos_assigns) != 2:
+        raise px.Unsupported(f"next_event has {len(spos_assigns)} non-zero _search_position assignments, expected 2")
+    names = {"len(self.buffer)": "buflen", "len(self.boundary)": "blen", "SEARCH_EXTRA_LENGTH": "search_extra_length",
+             "match.start()": "ms", "match.end()": "me", "len(data)": "datalen", "data_end": "data_end",
+             "del_index": "del_index", "data_start": "data_start"}
+
+    def bytes_len(node):
+        """length of a bytes expression built from literals, `boundary` (= b"--" + self.boundary) and self.boundary"""
+        if isinstance(node, ast.Constant) and isinstance(node.value, bytes):
+            return str(len(node.value))
+        if isinstance(node, ast.BinOp) and isinstance(node.op, ast.Add):
+            return f"({bytes_len(node.left)} + {bytes_len(node.right)})"
+        t = ast.unparse(node)
+        if t == "self.boundary":
+            return "blen"
+        if t == "boundary":
+            return "(2 + blen)"
+        raise px.Unsupported(f"bytes expression not recognised: {t}")
+
+    def nat(node):
+        t = ast.unparse(node)
+        if t in names:
+            return names[t]
+        if isinstance(node, ast.Constant) and isinstance(node.value, int) and node.value >= 0:
+            return str(node.value)
+        if isinstance(node, ast.Call) and isinstance(node.func, ast.Name) and node.func.id == "len" and len(node.args) == 1:
+            return bytes_len(node.args[0])
+        if isinstance(node, ast.BinOp) and isinstance(node.op, ast.Add):
+            return f"({nat(node.left)} + {nat(node.right)})"
+        if isinstance(node, ast.BinOp) and isinstance(node.op, ast.FloorDiv) and isinstance(node.right, ast.Constant):
+            return f"(Nat.div {nat(node.left)} {int(node.right.value)})"
+        raise px.Unsupported(f"arithmetic not in the translated subset: {t}")
+
+    def trunc(node):
+        """max(0, a - b - c) over non-negative ints = truncated subtraction chain in nat"""
+        if not (isinstance(node, ast.Call) and isinstance(node.func, ast.Name) and node.func.id == "max" and len(node.args) == 2
+                and isinstance(node.args[0], ast.Constant) and node.args[0].value == 0):
+            raise px.Unsupported(f"search position is not max(0, ...): {ast.unparse(node)}")
+        def sub(n):
+            if isinstance(n, ast.BinOp) and isinstance(n.op, ast.Sub):
+                return f"({sub(n.left)} - {nat(n.right)})"
+            return nat(n)
+        return sub(node.args[1])
+
+    def zexpr(node):
+        if isinstance(node, ast.BinOp) and isinstance(node.op, (ast.Sub, ast.Add)):
+            return f"({zexpr(node.left)} {'-' if isinstance(node.op, ast.Sub) else '+'} {zexpr(node.right)})%Z"
+        return f"(Z.of_nat {nat(node)})"
+
+    pre_spos, part_spos = [trunc(a.value) for a in sorted(spos_assigns, key=lambda n: n.lineno)]
+    if "blen" not in pre_spos or "blen" in part_spos:
+        raise px.Unsupported("the PREAMBLE / PART search-position formulas are not where the model expects them")
+    he = [n for n in ast.walk(ne) if isinstance(n, ast.Assign) and ast.unparse(n.targets[0]) == "headers_end"]
+    if len(he) != 1:
+        raise px.Unsupported("headers_end assignment not found")
+    binding = [n for n in ast.walk(pdm) if isinstance(n, ast.Assign) and ast.unparse(n.targets[0]) == "boundary"]
+    if len(binding) != 1 or ast.unparse(binding[0].value) != "b'--' + self.boundary":
+        raise px.Unsupported("_parse_data no longer binds boundary = b'--' + self.boundary")
+    far = [n for n in ast.walk(pdm) if isinstance(n, ast.If) and "len(data) - data_end" in ast.unparse(n.test)]
+    wait = [n for n in ast.walk(pdm) if isinstance(n, ast.If) and ast.unparse(n.test).replace(" ", "") in ("del_index<data_start", "data_start>del_index")]
+    if len(far) != 1 or len(wait) != 1:
+        raise px.Unsupported(f"_parse_data: far-shortcut tests found {len(far)}, wait tests found {len(wait)}")
+    ft = far[0].test
+    if not (isinstance(ft, ast.Compare) and len(ft.ops) == 1 and isinstance(ft.ops[0], (ast.Gt, ast.GtE, ast.Lt, ast.LtE))):
+        raise px.Unsupported("far-shortcut test is not a single comparison")
+    zl, zr = zexpr(ft.left), zexpr(ft.comparators[0])
+    far_term = {ast.Gt: f"Z.ltb {zr} {zl}", ast.GtE: f"Z.leb {zr} {zl}", ast.Lt: f"Z.ltb {zl} {zr}", ast.LtE: f"Z.leb {zl} {zr}"}[type(ft.ops[0])]
     text = px.HEADER.format(tool="c01.py", src="sansio/multipart.py")
+    text += "From Coq Require Import ZArith.\n"
     text += f"Definition search_extra_length : nat := {extra}%nat.\n"
+    text += f"Definition gen_preamble_spos (buflen blen : nat) : nat := ({pre_spos})%nat.\n"
+    text += f"Definition gen_part_spos (buflen : nat) : nat := ({part_spos})%nat.\n"
+    text += f"Definition gen_headers_end (ms me : nat) : nat := ({nat(he[0].value)})%nat.\n"
+    text += f"Definition gen_far (datalen data_end blen : nat) : bool := {far_term}.\n"
+    wt = wait[0].test
+    a, b = nat(wt.left), nat(wt.comparators[0])
+    wait_term = {ast.Lt: f"Nat.ltb {a} {b}", ast.Gt: f"Nat.ltb {b} {a}"}.get(type(wt.ops[0]))
+    if wait_term is None:
+        raise px.Unsupported("wait test is not a strict comparison")
+    text += f"Definition gen_wait (del_index data_start : nat) : bool := {wait_term}.\n"
     text += f"Definition line_break_text : list N := {px.coq_string_codes(line_break)}.\n"
     text += f"Definition blank_line_text : list N := {px.coq_string_codes(blank_pat)}.\n"
     text += f"Definition preamble_template : list N := {px.coq_string_codes(templates['preamble_re'][0])}.\n"
